@@ -191,14 +191,18 @@ def run_schedule(setup, prefix, gran):
 
 
 def explore(setup, check, gran, max_preempt=2, limit=2000, seed=0, randomize=False):
+    """Stateless exploration ordered by number of preemptions: all non-preemptive schedules, then every
+    single-preemption schedule, then (randomly ordered) two-preemption schedules, up to `limit` executions."""
+    import heapq
     import random
     rnd = random.Random(seed)
     seen = 0
-    stack = [[]]
+    heap = [(0, 0.0, [])]
     bad = []
     visited = set()
-    while stack and seen < limit:
-        prefix = stack.pop(rnd.randrange(len(stack)) if randomize else -1)
+    queued = set()
+    while heap and seen < limit:
+        pre0, _, prefix = heapq.heappop(heap)
         choices, ens, outcome, trace = run_schedule(setup, prefix, gran)
         key = tuple(choices)
         if key in visited:
@@ -218,8 +222,10 @@ def explore(setup, check, gran, max_preempt=2, limit=2000, seed=0, randomize=Fal
                 for j in range(1, len(newp)):
                     if newp[j] != newp[j - 1] and newp[j - 1] in ens[j]:
                         pre += 1
-                if pre <= max_preempt:
-                    stack.append(newp)
+                k = tuple(newp)
+                if pre <= max_preempt and k not in queued:
+                    queued.add(k)
+                    heapq.heappush(heap, (pre, rnd.random(), newp))
     return seen, bad
 
 
@@ -231,6 +237,10 @@ MUT = {   # name -> (kind, op descriptor in Ops.v vocabulary)
     "set_x": ("dict", ("DSet", "x", 1)), "set_y": ("dict", ("DSet", "y", 2)), "set_a": ("dict", ("DSet", "a", 9)),
     "del_a": ("dict", ("DDel", "a")), "pop_a": ("dict", ("DPop", "a")), "popitem": ("dict", ("DPopitem",)),
     "update": ("dict", ("DUpdate", {"u": 1, "a": 5})), "setdefault": ("dict", ("DSetdefault", "s", [1])),
+    "setdefault2": ("dict", ("DSetdefault", "s", 2)), "set_c": ("dict", ("DSet", "c", {"deep": [1, {"x": 2}]})),
+    "update_c": ("dict", ("DUpdate", {"n": {"k": 1, "new": [1]}, "w": {"q": {}}})),
+    "append_c": ("list", ("LAppend", {"a": [1, 2]})), "extend_c": ("list", ("LExtend", [{"b": 1}, [2]])),
+    "insert_c": ("list", ("LInsert", 1, [{"z": 0}])), "lset_c": ("list", ("LSet", 1, {"r": [1]})),
     "clear_d": ("dict", ("DClear",)), "reset_d": ("dict", ("DReset", {"r": 1})),
     "append": ("list", ("LAppend", 7)), "extend": ("list", ("LExtend", [8, 9])), "insert": ("list", ("LInsert", 0, 5)),
     "lpop": ("list", ("LPop", None)), "lpop0": ("list", ("LPop", 0)), "reverse": ("list", ("LReverse",)),
@@ -384,13 +394,16 @@ def thread_spec(name, mut, obj, file=0, path=(), read=False):
 
 def scenarios_c09(tier):
     out = []
-    dict_muts = ["set_x", "set_a", "del_a", "pop_a", "popitem", "update", "setdefault", "clear_d", "reset_d"]
-    list_muts = ["append", "extend", "insert", "lpop", "lpop0", "reverse", "remove", "lset", "iadd", "ldel", "clear_l", "reset_l"]
+    dict_muts = ["set_x", "set_a", "del_a", "pop_a", "popitem", "update", "setdefault", "setdefault2", "set_c", "update_c", "clear_d", "reset_d"]
+    list_muts = ["append", "extend", "insert", "lpop", "lpop0", "reverse", "remove", "lset", "iadd", "ldel", "clear_l", "reset_l",
+                 "append_c", "extend_c", "insert_c", "lset_c"]
     pairs_d = list(itertools.combinations_with_replacement(dict_muts, 2))
     pairs_l = list(itertools.combinations_with_replacement(list_muts, 2))
     if tier == "quick":
-        pairs_d = [("set_x", "set_a"), ("set_x", "clear_d"), ("update", "reset_d"), ("pop_a", "del_a"), ("setdefault", "popitem"), ("clear_d", "reset_d")]
-        pairs_l = [("lpop", "lpop"), ("append", "reverse"), ("clear_l", "append"), ("reset_l", "insert"), ("remove", "extend"), ("lset", "ldel")]
+        pairs_d = [("set_x", "set_a"), ("set_x", "clear_d"), ("update", "reset_d"), ("pop_a", "del_a"), ("setdefault", "popitem"), ("clear_d", "reset_d"),
+                   ("setdefault", "setdefault2"), ("set_c", "set_x"), ("update_c", "del_a")]
+        pairs_l = [("lpop", "lpop"), ("append", "reverse"), ("clear_l", "append"), ("reset_l", "insert"), ("remove", "extend"), ("lset", "ldel"),
+                   ("append_c", "append"), ("extend_c", "lpop"), ("insert_c", "iadd")]
     for a, b in pairs_d:
         for same in (True, False):
             out.append({"name": f"C09:{a}|{b}:{'same' if same else 'two'}-object", "cls": "JSONDict",
@@ -430,6 +443,11 @@ def scenarios_c13(tier):
                           "two-files": thread_spec("T2", b, "o2", file=1)}[layout]
                     out.append({"name": f"C13:{cls_d}:cap={cap}:{a}|{b}:{layout}", "cls": cls_d, "buffered": True, "cap": cap,
                                 "threads": [thread_spec("T1", a, "o1"), t2]})
+            # reads on an object no other thread uses (allowed by C13), next to a writer on another object of the file
+            for rd in (["r_get_a", "r_len_d", "r_get_d"] if tier != "quick" else ["r_get_a"]):
+                for w in (["set_x", "update", "del_a"] if tier != "quick" else ["set_x"]):
+                    out.append({"name": f"C13:{cls_d}:cap={cap}:{rd}|{w}:private-reader", "cls": cls_d, "buffered": True, "cap": cap,
+                                "threads": [thread_spec("R", rd, "o1", read=True), thread_spec("W", w, "o2")]})
             for a, b in lcombos:
                 out.append({"name": f"C13:{cls_l}:cap={cap}:{a}|{b}:two-files", "cls": cls_l, "buffered": True, "cap": cap,
                             "threads": [thread_spec("T1", a, "o1"), thread_spec("T2", b, "o2", file=1)]})
@@ -472,7 +490,7 @@ def run_scenarios(specs, tier, seed, jobs=14, gran=None):
     def one(spec):
         spec = dict(spec)
         spec.setdefault("gran", gran or ("call" if tier == "quick" else "line"))
-        spec.setdefault("limit", 120 if tier == "quick" else 1500)
+        spec.setdefault("limit", 260 if tier == "quick" else 3000)
         spec.setdefault("seed", seed)
         p = subprocess.run([sys.executable, os.path.abspath(__file__), "child", json.dumps(spec)], capture_output=True, text=True,
                            env=dict(os.environ, PYTHONHASHSEED="0", VERIF_REPO=REPO), timeout=3600)
